@@ -328,7 +328,7 @@ fn crafted_tsig_session(r: &mut StdRng, out: &mut Out) {
     cat.insert(Entry::Loaded(Arc::new(zone), ()));
     let mut server = Server::new(Arc::new(cat));
     server.set_edns_udp_payload_size(1232).unwrap();
-    let long_key = format!("{}.{}.{}.keys.example.", "k".repeat(60), "l".repeat(60), "m".repeat(50));
+    let long_key = format!("{}.{}.{}.{}.keys.example.", "k".repeat(60), "l".repeat(60), "m".repeat(60), "n".repeat(50));
     let keys = [("tsig.elsewhere.".to_string(), Alg::Sha256, b"crafted-secret-1".to_vec()), ("key.cdn.elsewhere.".to_string(), Alg::Sha1, b"crafted-secret-2".to_vec()),
                 (long_key, Alg::Sha256, b"crafted-secret-3".to_vec())];
     let mut map: TsigKeyMap = HashMap::new();
@@ -343,8 +343,9 @@ fn crafted_tsig_session(r: &mut StdRng, out: &mut Out) {
     // signed error response just fits
     {
         let (name, alg, secret) = &keys[2];
-        let qn = format!("{}.{}.{}.prov.test.", "q".repeat(60), "r".repeat(60), "s".repeat(40));
+        let qn = format!("{}.{}.{}.{}.prov.test.", "q".repeat(60), "r".repeat(60), "s".repeat(60), "t".repeat(55));
         let total = 12 + (w(&qn).len() + 4) + 11 + (w(name).len() + 10 + w(alg.name()).len() + 16 + alg.out_len() + 6);
+        assert!(total > 560, "the sweep must lie above the 512-octet floor");
         for adv in (total as u16 - 14)..=(total as u16 + 4) {
             let mut m = base_query(r, &qn, 1, 1);
             push_additional(&mut m, &opt_rr(adv, 0, &[0], &[]));
